@@ -30,7 +30,9 @@ META = {
             "which empties std::basic_string elements (c12_zero_insert_refuted, replayed on the real code: finding "
             "zero-insert-selfmove).  A manager rebuild sizes the vector by constructed_size, so capacity reserved "
             "beyond the constructed elements is not kept across a rebuild (c12_manager_cycle states capacity >= "
-            "constructed, not >= old capacity).",
+            "constructed, not >= old capacity).  Protobuf messages are checked by monitors only (managed ArenaExample vs "
+            "heap message); finding recreate-marks-submessage-present: a message rebuilt by the manager has its used "
+            "singular sub-message fields marked present (has_m() true), i.e. is not equal to a fresh message.",
 }
 
 TYPES_V = ["i", "c", "s", "n", "b"]
@@ -175,6 +177,27 @@ def main(argv):
     lib = chk.repolib_all()
     impl = chk.build_cpp("c12_reusable", [os.path.join(VERIF, "harness/seq/c12_reusable.cpp")], objs=[lib]) if lib else None
 
+    # protobuf part: generated code of /repo/test/proto/arena_example.proto, compiled once per change
+    impl_pb = None
+    if lib:
+        pbdir = os.path.join(vlib.BUILD, "c12pb")
+        os.makedirs(pbdir, exist_ok=True)
+        proto = os.path.join(vlib.REPO, "test/proto/arena_example.proto")
+        pbcc, pbo = os.path.join(pbdir, "arena_example.pb.cc"), os.path.join(pbdir, "arena_example.pb.o")
+        with vlib.Lock("c12pb"):
+            ok = True
+            if not os.path.exists(pbcc) or os.path.getmtime(pbcc) < os.path.getmtime(proto):
+                rc, out, err = sh(["protoc", "--cpp_out=" + pbdir, "-I", os.path.dirname(proto), proto], timeout=120)
+                ok = rc == 0
+            if ok and (not os.path.exists(pbo) or os.path.getmtime(pbo) < os.path.getmtime(pbcc)):
+                rc, out, err = sh([vlib.CXX] + vlib.CXXFLAGS + ["-I" + pbdir, "-c", pbcc, "-o", pbo], timeout=600)
+                ok = rc == 0
+            if not ok:
+                chk.broke("harness", "protoc / compile arena_example.pb.cc", (out + err)[-1500:])
+        if ok:
+            impl_pb = chk.build_cpp("c12_message", [os.path.join(VERIF, "harness/seq/c12_message.cpp")], objs=[pbo, lib],
+                                    flags=["-I" + pbdir])
+
     lines = []        # (id, type, mode, text after id)
     if chk.replay:
         r = json.load(open(chk.replay))["replay"]
@@ -215,13 +238,20 @@ def main(argv):
             for _ in range(60 if thorough else 12):
                 lines.append(("s%d" % n, "S", "S", "S %d %d %d" % (itv, 3 * max(itv, 1) + 2, chk.rng.below(1 << 40))))
                 n += 1
+        # 5. reflection-managed protobuf message under the manager against a heap message
+        for itv in [1, 2, 3, 5]:
+            for _ in range(40 if thorough else 10):
+                lines.append(("p%d" % n, "P", "P", "P %d %d %d" % (itv, 3 * itv + 3, chk.rng.below(1 << 40))))
+                n += 1
     chk.log("%d cases" % len(lines))
     text = {i: t for i, _, _, t in lines}
     impl_out, model_out = {}, {}
     if impl:
-        impl_out = chk.run_cases(impl, ["%s %s" % (i, t) for i, _, _, t in lines], timeout=900)
+        impl_out = chk.run_cases(impl, ["%s %s" % (i, t) for i, _, m, t in lines if m != "P"], timeout=900)
+    if impl_pb:
+        impl_out.update(chk.run_cases(impl_pb, ["%s %s" % (i, t) for i, _, m, t in lines if m == "P"], timeout=900))
     if model:
-        model_out = chk.run_cases(model, ["%s %s" % (i, t) for i, _, m, t in lines if m != "S"], timeout=900)
+        model_out = chk.run_cases(model, ["%s %s" % (i, t) for i, _, m, t in lines if m not in ("S", "P")], timeout=900)
 
     SIGS_V = [("cap_mono", "capacity-shrunk", "capacity of a vector decreased"),
               ("clear_keep", "clear-lost-capacity", "clear() changed capacity / constructed_size / buffer or left elements"),
@@ -244,6 +274,27 @@ def main(argv):
     for i, ty, mode, t in lines:
         rep = {"type": ty, "mode": mode, "case": t}
         il, ml = impl_out.get(i), model_out.get(i)
+        if mode == "P":
+            if impl_pb and il is None:
+                chk.broke("harness", "no output for case " + i, t)
+            elif il is not None and (il.startswith("CRASH") or " | " not in il):
+                chk.violate("impl-crash", "managed protobuf message crashed on: %s (%s)" % (t, il[:200]), rep)
+            elif il is not None:
+                mon = dict(kv.split("=") for kv in il.split(" | ")[1].split())
+                if mon.get("fresh") != "1":
+                    if mon.get("fresh_leaves") == "1":
+                        chk.violate("recreate-marks-submessage-present", "after the manager re-created a protobuf message its "
+                                    "singular sub-message field is present (has_m() == true, serialises to 2 bytes) instead of "
+                                    "equal to a fresh message: " + t, rep)
+                    else:
+                        chk.violate("message-clear-not-fresh", "managed protobuf message not empty after manager.clear(): " + t, rep)
+                for key, sig, what in [("same", "message-differs-from-heap", "arena message differs from a heap message driven by the same setters"),
+                                       ("acc_ok", "accessor-invalid", "accessor does not point into the manager's resource after clear"),
+                                       ("on_arena", "message-not-on-arena", "managed message is not on the manager's arena"),
+                                       ("no_growth", "converged-workload-allocates", "space_used of the resource grows from period to period for a repeated message workload")]:
+                    if mon.get(key) != "1":
+                        chk.violate(sig, "%s: %s" % (what, t), rep)
+            continue
         if impl and il is None:
             chk.broke("harness", "no output for case " + i, t)
             continue
@@ -295,14 +346,15 @@ def main(argv):
                        "window of prepare_for_insert up to constructed 4 (5 thorough) through insert(n), insert(range) and "
                        "emplace, seeded random sequences whose counts/sizes are aimed at the constructed_size boundary, "
                        "manager workloads for intervals 0,1,2,3,5 over 3 periods + 2 cycles, managed SwissString vs "
-                       "std::string; non-trivial = distinct cases that operate on a vector holding constructed elements "
-                       "beyond its size")
+                       "std::string, managed protobuf ArenaExample vs heap message (intervals 1,2,3,5); non-trivial = distinct "
+                       "cases that operate on a vector holding constructed elements beyond its size")
     for i, ty, mode, t in lines[:: max(1, len(lines) // 5)]:
         chk.sample({"case": t, "impl": (impl_out.get(i) or "")[:400], "model": (model_out.get(i) or "")[:400]})
     chk.cov["trusted_base"] = chk.cov.get("trusted_base", []) + [
         "translator/gen.py (C expression subset -> Z; size_t arithmetic taken as unbounded Z)",
         "extraction: ExtrOcamlBasic only; ocaml/rv_driver.ml",
-        "harness/seq/c12_reusable.cpp (std::vector / std::string reference, counting element registry)",
+        "harness/seq/c12_reusable.cpp (std::vector / std::string reference, counting element registry), "
+        "harness/seq/c12_message.cpp + protoc-generated test/proto/arena_example.proto",
         "modelled not verified: the monotonic resource (fresh storage per allocate), libstdc++ basic_string, element types",
     ]
     chk.assumptions = ["operation preconditions of std::vector (positions within [0,size], pop on non-empty)",
